@@ -194,6 +194,11 @@ fn convert_str_indices_slow(
             || end.is_none()
     );
     let len = len(s);
+    if matches!(start, Some(start) if start > len.0 as i32) {
+        // A start beyond the end selects nothing (not the empty string at the end),
+        // as in the cases which do not need the length.
+        return None;
+    }
     let (start, end) = convert_indices(len.0 as i32, start, end);
     if start > end {
         return None;
